@@ -10,6 +10,9 @@ var c04Kinds = []string{opPut, opRePut, opGet, opHas, opSize, opRemove, opFlush,
 var c04MaxW = []int{9, 1, 2, 1, 1, 5, 2, 1, 1, 5, 4, 1}
 
 func genC04(t *rapid.T) SeqCase {
+	if weighted(t, "focus", []int{3, 1}) == 1 {
+		return genIndexGCFocused(t, true)
+	}
 	var c SeqCase
 	c.Cfg = genConfig(t, cfgGenOpts{onlyMultihash: true, smallBits: true, smallFiles: true})
 	// The statement is about mutable and immutable stores alike; overwrites
